@@ -268,14 +268,18 @@ impl MultiReceiver {
     ///
     /// Cleanup shall be call from time to time to avoid consuming to much memory    
     pub fn cleanup(&mut self, now: SystemTime) {
+        // Evaluate the expiration of each session exactly once: the sessions that are
+        // removed are exactly the sessions reported to the listeners
         let mut output = Vec::new();
-        for receiver in &self.alc_receiver {
-            if receiver.1.is_expired() {
-                output.push(receiver.0.clone());
+        self.alc_receiver.retain(|k, v| {
+            if v.is_expired() {
+                output.push(k.clone());
+                false
+            } else {
+                true
             }
-        }
+        });
 
-        self.alc_receiver.retain(|_, v| !v.is_expired());
         for receiver in &mut self.alc_receiver.values_mut() {
             receiver.cleanup(now);
         }
